@@ -176,14 +176,14 @@ def run(ck, ctx):
             tag = "" if len(runs) == 1 else f" [invocation {ri + 1} of {len(runs)}, {_site(run_[1])}]"
             kparams = [a.arg for a in run_[0].node.args.args][1:]
             for k, (kp, bp) in enumerate(zip(kparams[:5], order)):
-                v = loc.get(kp)
+                v = getattr(loc, "entry", loc).get(kp)        # the argument as passed (the kernel may rebind the name)
                 ok = v is not None and v.op == "IterElem" and (v.args[0] is ins[bp] or any(
                     v.args[0].op == "Subscript" and _strip_array(v.args[0].args[0]) is ins[bp] and
                     g2.same(v.args[0].args[1], pm)
                     for pm in perms))
                 ck.ob("R10.3", f"kernel parameter {kp} receives the element of batch argument {bp}{tag}", ok,
                       v if v is not None else r.value, fnn, g2.show(v, 2) if v is not None else "missing")
-            cf = loc.get(kparams[5]) if len(kparams) > 5 else None
+            cf = getattr(loc, "entry", loc).get(kparams[5]) if len(kparams) > 5 else None
             ck.ob("R10.3", f"the cloud callable is passed through to the kernel{tag}", cf is cloud,
                   cf if cf is cloud else run_[1], fnn, g2.show(cf, 1) if cf is not None else "missing",
                   construct=f"{fnn}: cloud callable not forwarded to the kernel")
